@@ -9,6 +9,7 @@ from .cfg import DefUse
 from .colls import coll_ops
 from .effects import counter_effects, writes_of
 from .facts import strip_generics
+from .expr import expr, show, mentions  # noqa: F401
 
 EXPLANATION = (
     "Static rules over MIR facts of /repo. Decided clause of C11: (SIGN) every function that "
@@ -578,6 +579,70 @@ def wmc_truncating(ctx, prog):
             ctx.fail(R, inst, "{} in {}: the walk can stop before the last element (not in the frozen table of "
                      "audited uses)".format(name, t.fn.short), fn=t.fn, span=t.span, kind="anchor")
     ctx.ok(R, "scan", "%d adaptor call(s) inspected" % n)      # zero is the expected count in release builds
+
+
+LOOP_EXIT_ON_DEAD_OK = {
+    "incremental::node::Node::maybe_change_value_manual":
+        "existing behaviour: a dead parent ends change propagation with None (commented `should probably be an error`)",
+    "<incremental::node::Node as incremental::node::ErasedNode>::child_changed":
+        "the exit is the `?` on the inner child_changed result (MapRef forwarding), not on the upgrade itself",
+}
+
+
+def wmc_loop_exit_on_dead(ctx, prog, R="C11.WMC-truncating"):
+    """Same clause for hand-written loops: a loop over an engine queue that LEAVES the loop when a weak entry is dead
+    (`while let Some(x) = q.pop().and_then(upgrade)`) drops every entry behind the dead one; dead entries are skipped
+    with `continue`."""
+    n = 0
+    for F in prog.fns.values():
+        if not F.crate.startswith("incremental") or F.j.get("from_expansion"):
+            continue
+        c = F.cfg()
+        loops = c.loops()
+        if not loops:
+            continue
+        du = None
+        for h, body in loops.items():
+            for b in body:
+                t = F.blocks[b]["term"]
+                if t["k"] != "switch":
+                    continue
+                outs = [x for x in c.succ[b] if x not in body and F.blocks[x]["term"]["k"] != "unreachable" and c._can_return(x)]
+                if not outs:
+                    continue
+                du = du or DefUse(F)
+                e = expr(F, t["on"], du)
+                via_upgrade = mentions(e, lambda x: x[0] == "call" and x[1].endswith("::upgrade"))
+                if not via_upgrade:
+                    # `queue.pop().and_then(|w| w.upgrade())`: the upgrade sits in a closure the tested value went through
+                    from .expr import closure_paths
+                    inner = e[1] if e[0] == "discr" else e
+                    on_option = inner[0] == "call" and q.strip_generics(inner[1]).startswith("core::option::Option::")
+                    for cp in (closure_paths(e) if on_option else ()):
+                        G = prog.fn(cp)
+                        if G is not None and any((t.callee or "").endswith("::upgrade") or q.callee_is(t, "Weak::upgrade")
+                                                 for t in G.calls()):
+                            via_upgrade = True
+                if not via_upgrade:
+                    continue
+                n += 1
+                ctx.site(R, F, "bb{} loop exit on {}".format(b, show(e)[:60]))
+                inst = "loop-exit-on-dead:" + F.short
+                if q.strip_generics(F.root) in LOOP_EXIT_ON_DEAD_OK:
+                    ctx.ok(R, inst, LOOP_EXIT_ON_DEAD_OK[q.strip_generics(F.root)])
+                else:
+                    ctx.fail(R, inst, "a loop in {} ends when an entry's weak reference is dead ({}): the entries behind it "
+                             "are not processed in this pass (a dead entry must be skipped, not end the walk)"
+                             .format(F.short, show(e)[:80]), fn=F)
+    return n
+
+
+_wmc_truncating_adaptors = wmc_truncating
+
+
+def wmc_truncating(ctx, prog):      # noqa: F811
+    _wmc_truncating_adaptors(ctx, prog)
+    wmc_loop_exit_on_dead(ctx, prog)
 
 
 wmc_truncating.rule_id = "C11.WMC-truncating"
